@@ -1,23 +1,25 @@
 ---------------------------- MODULE MC_C03_consts ----------------------------
 (* Constants of Server for the C03 / C20 checks.  This checked-in copy holds the values of *)
-(* the pinned tree; every run of harness/c03.py / c20.py REGENERATES the file next to the   *)
-(* specs (binding B1): protocol order and handler lists are read from conf/pygopherd.conf, *)
-(* the tree is the one the harness builds, Defects comes from known_findings.json.          *)
+(* the pinned tree (quick tier, no recorded defects, a 4-request history alphabet and two   *)
+(* C20 cases) so that the .cfg files next to it run stand-alone; every run of harness/c03.py *)
+(* and harness/c20.py REGENERATES the file next to the staged specs (binding B1): protocol  *)
+(* order and handler lists are read from conf/pygopherd.conf, the tree is the one the       *)
+(* harness builds, Defects comes from known_findings.json, C_C20Cases from measured runs.   *)
 EXTENDS TLC
 C_ProtoOrder == <<"WAPProtocol", "GeminiProtocol", "HTTPProtocol", "HTTPSProtocol", "SpartanProtocol", "GopherPlusProtocol", "SecureGopherPlusProtocol", "GopherProtocol", "SecureGopherProtocol">>
 C_HandlerLists == ("default" :> <<"HTMLURLHandler", "BuckGophermapHandler", "MaildirFolderHandler", "MaildirMessageHandler", "UMNDirHandler", "HTMLFileTitleHandler", "MBoxMessageHandler", "MBoxFolderHandler", "FileHandler">> @@ "full" :> <<"HTMLURLHandler", "BuckGophermapHandler", "MaildirFolderHandler", "MaildirMessageHandler", "UMNDirHandler", "TALFileHandler", "HTMLFileTitleHandler", "MBoxMessageHandler", "MBoxFolderHandler", "PYGHandler", "ExecHandler", "ZIPHandler", "CompressedFileHandler", "FileHandler", "URLTypeRewriter">>)
-C_Tree == ("default" :> ("/" :> "dir" @@ "/about.txt" :> "file" @@ "/d" :> "dir" @@ "/m.mbox" :> "mbox") @@ "full" :> ("/" :> "dir" @@ "/about.txt" :> "file" @@ "/d" :> "dir" @@ "/m.mbox" :> "mbox"))
+C_Tree == ("default" :> ("/" :> "dir" @@ "/about.txt" :> "file" @@ "/big.txt" :> "file" @@ "/d" :> "dir" @@ "/d/a.txt" :> "file" @@ "/d/b.txt" :> "file" @@ "/d/sub" :> "dir" @@ "/d/sub/c.txt" :> "file" @@ "/gm" :> "gmapdir" @@ "/gm/gophermap" :> "file" @@ "/gm/x.txt" :> "file" @@ "/m.mbox" :> "mbox" @@ "/md" :> "maildir" @@ "/md/cur" :> "dir" @@ "/md/cur/1001.2.host:2,S" :> "file" @@ "/md/new" :> "dir" @@ "/md/new/1000.1.host" :> "file" @@ "/md/tmp" :> "dir" @@ "/md/tmp/.keep" :> "file" @@ "/p.pyg" :> "pyg" @@ "/page.html" :> "html" @@ "/run.sh" :> "exe" @@ "/t.txt.gz" :> "gz" @@ "/umn" :> "dir" @@ "/umn/.Links" :> "file" @@ "/umn/f.txt" :> "file" @@ "/z.zip" :> "zip") @@ "full" :> ("/" :> "dir" @@ "/about.txt" :> "file" @@ "/big.txt" :> "file" @@ "/d" :> "dir" @@ "/d/a.txt" :> "file" @@ "/d/b.txt" :> "file" @@ "/d/sub" :> "dir" @@ "/d/sub/c.txt" :> "file" @@ "/gm" :> "gmapdir" @@ "/gm/gophermap" :> "file" @@ "/gm/x.txt" :> "file" @@ "/m.mbox" :> "mbox" @@ "/md" :> "maildir" @@ "/md/cur" :> "dir" @@ "/md/cur/1001.2.host:2,S" :> "file" @@ "/md/new" :> "dir" @@ "/md/new/1000.1.host" :> "file" @@ "/md/tmp" :> "dir" @@ "/md/tmp/.keep" :> "file" @@ "/p.pyg" :> "pyg" @@ "/page.html" :> "html" @@ "/run.sh" :> "exe" @@ "/t.txt.gz" :> "gz" @@ "/umn" :> "dir" @@ "/umn/.Links" :> "file" @@ "/umn/f.txt" :> "file" @@ "/z.zip" :> "zip" @@ "/z.zip/sub" :> "zdir" @@ "/z.zip/sub/inner.txt" :> "zfile" @@ "/z.zip/top.txt" :> "zfile"))
 C_MailCount == ("/m.mbox" :> 2 @@ "/md" :> 2)
 C_Defects == {}
 C_Bytecode == FALSE
-C_OpsBound == 2000
-C_Frames == {"g", "g_tab", "gp_plus", "h_get", "h_head", "gem", "gem_bad1", "s"}
-C_Sels == {"/", "/about.txt", "/nofile", "/a~b", "/x%0d%0ay"}
-C_ArgFrames == {"g", "s"}
-C_ArgSels == {"/m.mbox", "/nofile"}
-C_Args == {"|/MBOX-MESSAGE/1", "|/MBOX-MESSAGE/3"}
-C_HLs == {"default"}
-C_Reps == <<[f |-> "g", s |-> "/", a |-> ""], [f |-> "g", s |-> "/.cache.pygopherd.dir", a |-> ""], [f |-> "h_get", s |-> "/", a |-> ""]>>
+C_OpsBound == 810
+C_Frames == {"g", "g_4f", "g_eof", "g_lf", "g_q", "g_q_tab", "g_sp", "g_tab", "gem", "gem_bad1", "gem_bad2", "gem_noauth", "gem_plain", "gem_q", "gem_query", "gem_query_q", "gp_dir", "gp_info", "gp_plus", "gp_q", "gp_view", "h_09", "h_get", "h_hdrs_noblank", "h_head", "h_noblank", "h_q", "s", "s_2sp", "s_short", "tg", "tg_tab", "th_get", "w_get", "w_hdr"}
+C_Sels == {"", "/", "/%2", "/%zz", "/../about.txt", "/1/about.txt", "/URL:http://x.org/", "/a%00b", "/about.txt", "/about.txt/x", "/a~b", "/big.txt", "/d", "/d/", "/d/.cache.pygopherd.dir", "/d//a.txt", "/gm", "/m.mbox", "/md", "/nofile", "/p.pyg", "/page.html", "/run.sh", "/t.txt.gz", "/umn", "/x\ry", "/x%0d%0ay", "/z.zip", "/z.zip/nope", "/z.zip/sub", "/z.zip/sub/inner.txt"}
+C_ArgFrames == {"g", "gem", "gp_plus", "h_get", "s"}
+C_ArgSels == {"/about.txt", "/d", "/m.mbox", "/md", "/nofile"}
+C_Args == {"?/MBOX-MESSAGE/1", "|", "|/MAILDIR-MESSAGE/0", "|/MAILDIR-MESSAGE/1", "|/MAILDIR-MESSAGE/2", "|/MAILDIR-MESSAGE/3", "|/MBOX-MESSAGE/", "|/MBOX-MESSAGE/-1", "|/MBOX-MESSAGE/0", "|/MBOX-MESSAGE/1", "|/MBOX-MESSAGE/1000000000", "|/MBOX-MESSAGE/2", "|/MBOX-MESSAGE/3", "|/MBOX-MESSAGE/x"}
+C_HLs == {"default", "full"}
+C_Reps == <<[f |-> "g", s |-> "/", a |-> ""], [f |-> "gp_dir", s |-> "/", a |-> ""], [f |-> "h_get", s |-> "/", a |-> ""], [f |-> "g", s |-> "/d", a |-> ""]>>
 C_MaxHist == 1
-C_C20Cases == <<[line |-> "/about.txt\r\n", tls |-> FALSE, wap |-> FALSE, hl |-> "default", tail |-> "none", fk |-> 0, fcls |-> "none", nw |-> 1, id |-> "g :: /about.txt :: default"]>>
+C_C20Cases == <<[line |-> "/big.txt\r\n", tls |-> FALSE, wap |-> FALSE, hl |-> "default", tail |-> "none", fk |-> 0, fcls |-> "none", nw |-> 3, id |-> "g :: /big.txt :: default"], [line |-> "localhost /d 0\r\n", tls |-> FALSE, wap |-> FALSE, hl |-> "default", tail |-> "none", fk |-> 0, fcls |-> "none", nw |-> 1, id |-> "s :: /d :: default"]>>
 =============================================================================
